@@ -299,6 +299,33 @@ func (g *G) graph() (decls []string, names []string) {
 	return decls, names
 }
 
+// custom properties whose substitution yields a CSS-wide keyword, and declarations (longhands
+// and shorthands of the modelled families) that take their whole value from them
+func (g *G) wideKeywordUses() (decls, uses []string) {
+	kw := g.pick("inherit", "inherit", "INHERIT", "Inherit", "initial", "INITIAL", "unset", "revert", "currentColor", "inherit inherit")
+	switch g.r.Intn(4) {
+	case 0: // through a chain
+		decls = []string{"--w: var(--w2)", "--w2: " + kw}
+	case 1: // through a fallback
+		decls = []string{"--w: var(--undefined-w, " + kw + ")"}
+	default:
+		decls = []string{"--w:" + g.pick("", " ") + kw}
+	}
+	ref := func() string {
+		if g.r.Chance(1, 5) {
+			return "var(--undefined-w, " + kw + ")"
+		}
+		return g.cs("var") + "(--w)"
+	}
+	targets := []string{"color", "visibility", "margin", "padding", "border", "border-color", "border-style", "columns", "column-width", "column-count",
+		"margin-" + vlib.Pick(g.r, sides), "padding-" + vlib.Pick(g.r, sides), "border-" + vlib.Pick(g.r, sides),
+		"border-" + vlib.Pick(g.r, sides) + "-" + g.pick("style", "color")}
+	for i, n := 0, g.r.Range(1, 3); i < n; i++ {
+		uses = append(uses, vlib.Pick(g.r, targets)+": "+ref())
+	}
+	return decls, uses
+}
+
 // a declaration using var() in a modelled property
 func (g *G) varUse(names []string) string {
 	v := func() string { return g.varRef(names, 2) }
